@@ -459,6 +459,9 @@ func evaluate(ast grammar.Expression, datum interface{}, opt ...Option) (bool, e
 		switch node.Operator {
 		case grammar.UnaryOpNot:
 			result, err := evaluate(node.Operand, datum, opt...)
+			if err != nil {
+				return false, err
+			}
 			return !result, err
 		}
 	case *grammar.BinaryExpression:
